@@ -202,3 +202,9 @@ def run(ctx):
                           (e["ev"], e["T"], (" at instant %s" % e["t"]) if "t" in e else "", e["r"], clause), e)
     ctx.evaluations += len(events)
     ctx.sample({"trace_event": events[len(events) // 2]}, limit=8)
+    # growth next to C04: selecting tracks / observations by constraints and selectors (Selection.tla)
+    from drivers import selection_common
+    selection_common.run(ctx, quick)
+    # growth next to C04: the mutable collection of track objects (TrackColl.tla)
+    from drivers import trackcoll_common
+    trackcoll_common.run(ctx, quick)
